@@ -27,7 +27,7 @@ STATE_MEASURE = "distinct (function, collision class of the argument pair, cache
 PROBES = ["same_bytes_other_dtype", "same_bytes_other_length", "strided_argument", "keyword_vs_positional", "cache_full_eviction",
           "evicted_then_recalled", "result_mutated", "result_readonly", "file_modified_same_size", "file_modified_other_size",
           "contour_evicted_recomputed", "child_scalar_read", "basin_proxy_read", "h5_scalar_read", "interleaved_functions", "layout_or_shape_variant_2d", "first_access_with_dtype",
-          "refilter_same_count", "grandchild_read_after_refilter"]
+          "refilter_same_count", "grandchild_read_after_refilter", "tuple_argument"]
 COMPONENTS = {"real": ["dclab.cached.Cache", "dclab.kde_methods (kde_histogram, kde_gauss, kde_multivariate)", "dclab.downsampling.downsample_grid (compiled)",
                        "dclab.util.hashfile / file_monitoring_lru_cache", "dclab.features.contour.LazyContourList",
                        "H5ScalarEvent / ChildScalar / BasinProxyFeature caches", "real files and os.stat on tmpfs"],
@@ -187,7 +187,10 @@ class World:
         if kind == "kde":
             a = r.randrange(P)
             op = {"k": "kde", "fn": r.choice(["histogram", "histogram", "gauss", "multivariate"]), "a": a,
-                  "pos": r.choice([None, None, r.randrange(P)]), "kw": r.random() < 0.4, "bins": r.choice([None, None, 5, 11])}
+                  "pos": r.choice([None, None, r.randrange(P)]), "kw": r.random() < 0.4,
+                  # (explicit (x, y) pairs whose digits concatenate identically are distinct arguments)
+                  "bins": r.choice([None, None, 5, 11, [10, 110], [101, 10], [12, 34], [123, 4]]),
+                  "bw": r.choice([None, None, None, [1.0, 12.0], [1.01, 2.0]])}
             return op
         if kind == "memo2d":
             return {"k": "memo2d", "a": r.randrange(8), "kw": r.random() < 0.3, "scale": r.choice([1.0, 1.0, 2.0])}
@@ -290,7 +293,12 @@ class World:
             else:
                 args += [px, py]
         if op["fn"] == "histogram" and op.get("bins"):
-            kwargs["bins"] = op["bins"]
+            kwargs["bins"] = tuple(op["bins"]) if isinstance(op["bins"], list) else op["bins"]
+            if isinstance(op["bins"], list):
+                ctx.probe("tuple_argument")
+        if op["fn"] == "multivariate" and op.get("bw"):
+            kwargs["bw"] = tuple(op["bw"])
+            ctx.probe("tuple_argument")
         if op["kw"] and op["pos"] is None:
             args, kwargs = [], dict(kwargs, events_x=x, events_y=y)
             ctx.probe("keyword_vs_positional")
@@ -298,7 +306,7 @@ class World:
         exp = self.fresh_call(fn, args, kwargs)
         ctx.checked()
         ctx.state_ops += 1
-        self.note_call("kde_" + op["fn"], label, ("kde", op["fn"], op["a"], op["pos"], op["kw"], op.get("bins")))
+        self.note_call("kde_" + op["fn"], label, ("kde", op["fn"], op["a"], op["pos"], op["kw"], str(op.get("bins")), str(op.get("bw"))))
         if not self.same(got, exp):
             ctx.violation("C17.memo.kde", f"kde_{op['fn']} with arguments '{label}' (pos={op['pos']}, kw={op['kw']}) returned a value that differs from a "
                                           f"fresh computation: {self.brief(got)} vs {self.brief(exp)}", sig={"fn": "kde", "label": label})
